@@ -19,7 +19,7 @@ EXPLANATION = (
     "scratch state (match spans, replacement) is cleared or recomputed before it is read in every Sink method, and "
     "record_matches/replace themselves start by clearing; (PRELUDE) path, line number, column, byte offset in that "
     "order with 1-based columns; (PATHS) fast paths only without match spans, multi-line paths only in multi-line mode. "
-    "Byte-for-byte equality of the printed text and correctness of the numbers are values and not decided.")
+    "Byte-for-byte equality of the printed text and correctness of the numbers are values and not decided. (REDISCOVER) match re-discovery reports only matches starting before the end of the reported range, over a bounded haystack starting at range.start, with the terminator trimmed in single-line mode.")
 NOT_DECIDED = ["byte-for-byte equality of printed text with the input", "correctness of columns / offsets (values)"]
 
 P = "grep_printer"
